@@ -186,6 +186,34 @@ func genCompStr(r *rand.Rand) string {
 	return k
 }
 
+// one (empty) container object stored under two parents, then Walk(CompactFn): the walk visits every
+// position — the plain tree loses the empty container at both
+func c03SharedWalk() Case {
+	var fail []string
+	pn := guard(func() {
+		shared := dom.Builder().Container()
+		inner := dom.Builder().Container()
+		shared.AddValue("inner", inner) // holds only an empty container
+		d := dom.Builder().Container()
+		p1, p2 := dom.Builder().Container(), dom.Builder().Container()
+		p1.AddValue("defaults", shared)
+		p1.AddValue("keep", dom.LeafNode(1))
+		p2.AddValue("defaults", shared)
+		d.AddValue("first", p1)
+		d.AddValue("second", p2)
+		d.AddValue("top", dom.LeafNode("x"))
+		d.Walk(dom.CompactFn)
+		want := map[string]any{"first": map[string]any{"keep": 1}, "top": "x"}
+		if got := nodeToAny(d); !reflect.DeepEqual(got, any(want)) {
+			fail = append(fail, fmt.Sprintf("Walk(CompactFn) over a document holding one empty container under two parents leaves %v, the plain tree %v", got, want))
+		}
+	})
+	if pn != "" {
+		fail = append(fail, "panic: "+pn)
+	}
+	return Case{Kind: "shared-walk", Desc: "one empty container object under two parents, Walk(CompactFn)", Fail: fail, Nontrivial: true, Key: "shared-walk"}
+}
+
 func genPathStr(r *rand.Rand) string {
 	n := 1 + r.Intn(3)
 	var cs []string
@@ -490,6 +518,7 @@ func init() {
 				mk(map[string]any{"a": []any{1, 2}}, addAt("a[3]", 9)),
 				mk(map[string]any{"b": map[string]any{"c": []any{map[string]any{"x": 1}}}}, rmAt("b.c[0].x"), rmAt("b.c[0]")),
 				mk(map[string]any{"a": map[string]any{"b": map[string]any{}}}, rmAt("a.b.c"), rmAt("a.b")),
+				c03SharedWalk(),
 			}
 		},
 		Gen: func(r *rand.Rand, tier string, idx int) Case {
